@@ -4,7 +4,7 @@
 (*   Reset   {tid}                 a fresh thread starts (its caches empty) *)
 (*   Exit    {tid}                 that thread has ended                    *)
 (*   Access  {tid,kind,n,hit,keys,mapsize,cid}   hook event, after access   *)
-(*   Call    {tid,api,n,eqfresh,finite}          result vs fresh thread     *)
+(*   Call    {tid,api,n,eqfresh,bitident,finite}       result vs fresh thread     *)
 (*   Held    {tid,plan,n,eqfresh}                use of a long-lived plan   *)
 (*   Keys    {tid,kind,keys}       accessor read-out, must equal the model  *)
 EXTENDS PlanCache, TLC, Json, IOUtils
@@ -50,6 +50,7 @@ TAccess ==
 
 TCall == /\ Ev.e \in {"Call", "Held"} /\ Has(cache, Ev.tid)
          /\ Ev.eqfresh = TRUE /\ Ev.finite = TRUE
+         /\ Ev.bitident = TRUE       \* "equals the one obtained in a fresh thread": the same code on the same input, bit for bit
          /\ UNCHANGED <<cap, cache, owner>>
 
 TKeys == /\ Ev.e = "Keys" /\ Has(cache, Ev.tid)
